@@ -37,3 +37,9 @@ Definition incomplete (tail : list Z) : Prop :=
   exists t n partial, pkt_type_ok t = true /\ 0 <= n < MaxPacketSize /\
                       tail = hdr t n ++ partial /\ len partial < n.
 
+
+(* how GetNextMessage ends on a stream whose tail is not a whole packet *)
+Definition tail_end (tail : list Z) : fend :=
+  if len tail =? 0 then FClosed
+  else if len tail <? HeadLength then FBad EPktHeader
+  else FShortBody.
